@@ -128,7 +128,11 @@ func genC06(tier string, seed int64) []Case {
 				} else {
 					s.Who, s.Fault = "rt", []string{"afterNext", "afterResponse"}[r.Intn(2)]
 				}
-				d.Second = s
+				// an "idle" fault needs a healthy first invocation; a second party failing
+				// at register / first event would make that invocation fail legitimately
+				if d.Fault != "idle" {
+					d.Second = s
+				}
 			}
 			if r.Intn(3) == 0 {
 				d.HookDelay = map[string]int{[]string{"invoke.releaseFailed", "watchEvents.exitRecorded", "fastInvoke.failureSeen", "handleReset.flowsCancelled"}[r.Intn(4)]: 1 + r.Intn(15)}
